@@ -128,22 +128,56 @@ def run(rep: Report, tier: str) -> None:
 		for k, frag in expect_attr.items():
 			rw.check(frag in wsrc.get(k, ''), f'write:{k}', (SER, wd.lineno), f'key {k!r} is written from `{wsrc.get(k)}`, expected an expression over `{frag}`')
 		opts = [n for n in nodes(dfi, ast.Call) if attr_chain(n.func) == 'Options']
-		if len(opts) != 1:
+		if not opts:
 			rw.skip('read:Options', d.where, 'Options(...) construction not found in deserialize')
-		else:
-			for kw in opts[0].keywords:
+		seen_opts: set[str] = set()
+		for o in opts:
+			if unparse(o) in seen_opts:
+				continue  # the same construction, met again where a single-assignment local was expanded
+			seen_opts.add(unparse(o))
+			for kw in o.keywords:
 				src_keys = value_keys(kw.value)
-				rw.check(src_keys == {kw.arg}, f'read:Options.{kw.arg}', (SER, opts[0].lineno), f'Options({kw.arg}=...) takes its value from data keys {sorted(src_keys)}; expected data[{kw.arg!r}]')
-			rw.check({k.arg for k in opts[0].keywords} == {'node', 'decl', 'origin', 'via'}, 'read:Options-fields', (SER, opts[0].lineno), f'Options is built with {[k.arg for k in opts[0].keywords]}')
+				rw.check(src_keys == {kw.arg}, f'read:Options.{kw.arg}', (SER, o.lineno), f'Options({kw.arg}=...) takes its value from data keys {sorted(src_keys)}; expected data[{kw.arg!r}]')
+			rw.check({k.arg for k in o.keywords} == {'node', 'decl', 'origin', 'via'}, 'read:Options-fields', (SER, o.lineno), f'Options is built with {[k.arg for k in o.keywords]}')
 	if 'Symbol' in wdicts:
 		wd = wdicts['Symbol']
 		wsrc = {const_str(k): unparse(v) for k, v in zip(wd.keys, wd.values)}
 		rw.check(f'{sparam}.types.' in wsrc.get('types', ''), 'write:types', (SER, wd.lineno), f"key 'types' is written from `{wsrc.get('types')}`")
 		inst = [n for n in nodes(dfi, ast.Call) if attr_chain(n.func) == 'Symbol.instantiate']
-		if len(inst) != 1 or len(inst[0].args) != 2:
+		if not inst or any(len(i.args) != 2 for i in inst):
 			rw.skip('read:Symbol.instantiate', d.where, 'Symbol.instantiate(traits, types) not found in deserialize')
 		else:
-			rw.check(value_keys(inst[0].args[1]) == {'types'}, 'read:Symbol.instantiate', (SER, inst[0].lineno), f'Symbol.instantiate must be called with the class node restored from data[\'types\']: `{unparse(inst[0].args[1])[:120]}`')
+			for i in inst[:1] + [j for j in inst[1:] if unparse(j) != unparse(inst[0])]:
+				rw.check(value_keys(i.args[1]) == {'types'}, 'read:Symbol.instantiate', (SER, i.lineno), f'Symbol.instantiate must be called with the class node restored from data[\'types\']: `{unparse(i.args[1])[:120]}`')
+	# every field written for a row reaches the symbol built from it, on every way out of the branch that reads the row: the four fields of a reference row
+	# are written from four different attributes (node, decl, types, via), so a way out whose result consults fewer of them cannot restore them all —
+	# unless the conditions known there say two of them are equal (`data['origin'] == data['via']`: the symbol is its own predecessor)
+	rf = rep.rule('C14/every-written-field-reaches-the-restored-symbol', 'on every return of deserialize the returned symbol is computed from every key serialize wrote for that record shape, except a key the path condition equates with another one that is used', floor=1)
+	for ret in [n for n in walk_no_nested(d.node) if isinstance(n, ast.Return) and n.value is not None]:
+		cond = atoms(d.node, ret)
+		disc = [p_ for a, p_ in cond if isinstance(a, ast.Compare) and unparse(a.left) == f"{dparam}['class']" and const_str(a.comparators[0]) == tested]
+		if len(disc) != 1:
+			rf.skip(f'return:{unparse(ret.value)[:40]}', (SER, ret.lineno), 'the record shape is not known at this return')
+			continue
+		shape = tested if disc[0] else (other[0] if len(other) == 1 else None)
+		if shape not in written:
+			continue
+		val = expand_use(d.node, ret.value, 6)
+		if any(isinstance(n, ast.Name) and n.id == dparam and isinstance(n.ctx, ast.Load) for n in ast.walk(val)) and not subscripted_keys(val, dparam):
+			rf.skip(f'return:{unparse(ret.value)[:40]}', (SER, ret.lineno), 'the row is handed to a helper as a whole')
+			continue
+		used = subscripted_keys(val, dparam) | value_keys(val)
+		missing = written[shape][0] - used - {'class'}
+		for a, p_ in cond:
+			if p_ and isinstance(a, ast.Compare) and len(a.ops) == 1 and isinstance(a.ops[0], ast.Eq):
+				lk = subscripted_keys(expand_use(d.node, a.left, 6), dparam)
+				rk = subscripted_keys(expand_use(d.node, a.comparators[0], 6), dparam)
+				if len(lk) == 1 and len(rk) == 1:
+					if lk <= used:
+						missing -= rk
+					if rk <= used:
+						missing -= lk
+		rf.check(not missing, f'{shape}:return:{unparse(ret.value)[:40]}', (SER, ret.lineno), f'this way out of deserialize builds the {shape} row\'s symbol without data[{(sorted(missing) or ['?'])[0]!r}]' + (f' (it uses {sorted(used)}; conditions known here: {[(unparse(a)[:50], p_) for a, p_ in cond][:4]})' if missing else '') + ': the field is taken from somewhere else (the origin symbol, a default), which coincides only for some rows — e.g. a parameter or a variable of an imported module keeps the declaration of its TYPE instead of its own, so `decl`-based decisions (is it a parameter, a class variable, which scope) differ between a warm and a cold run', unparse(ret)[:160])
 	pm_d = parent_map(dfi)
 	# reader sites in deserialize and in the private helpers it calls (their parameters replaced by the call arguments): the key's value may be handed to
 	# a helper that parses it (`self._node_by(data['types'])` -> `ModuleDSN.parsed(dsn)` inside). A helper is inlined once (for the first call site met),
@@ -342,6 +376,12 @@ def run(rep: Report, tier: str) -> None:
 				rd.violate('import-completes', (db.relpath, c_.lineno), f'import_json marks `{unparse(c_.args[0]) if c_.args else ""}` as completed, which is not derived from the row key `{kv}`: the rows of a module are filed under the module of their key (__setitem__), while e.g. the declaration of an imported name lives in ANOTHER module, so a module holding only import rows is never marked completed and the declaring module is marked although its own rows were not imported', unparse(c_))
 			else:
 				rd.skip('import-completes', (db.relpath, c_.lineno), f'on_complete({unparse(arg)[:80]}) derives the module from the key by a shape this check does not read')
+	if stores:
+		# a module that declares nothing (a script of calls only) exports `{}`: completion that is only ever recorded per ROW is never recorded for it
+		lp = stores[0][0]
+		in_loop = {id(c_) for c_ in calls(lp, 'self.on_complete')}
+		outside = [c_ for c_ in calls(ijx, 'self.on_complete') if id(c_) not in in_loop]
+		rd.check(bool(outside), 'import-completes:empty-export', ij.where, 'import_json records completion only inside the loop over the rows, from each row key: for a module without any symbol (`print(1)`) to_json gives {} and import_json({}) marks nothing, so completed(module) is False after the import although the exported table had it True — the interface has no way to name the module of an empty export')
 	rd.check(has_call(X(si), 'ModuleDSN.parsed'), 'setitem-parser', si.where, '__setitem__ no longer files the key with ModuleDSN.parsed (import_json derives the module path with the same parser)')
 
 
